@@ -72,6 +72,10 @@ def _mk(sc, n, coord_kind):
     if coord_kind == 'int':
         x = [C.sym_var(f'x{i}', is_int=True) for i in range(n)]
         dt, unit = 'int64', 's'
+    elif coord_kind == 'datetime':
+        # time stamps in milliseconds since the epoch (integers); the tolerance is given per second
+        x = [C.sym_var(f'x{i}', is_int=True) for i in range(n)]
+        dt, unit = 'datetime64', 'ms'
     else:
         x = [C.sym_var(f'x{i}') for i in range(n)]
         dt, unit = 'float64', 's'
@@ -124,7 +128,8 @@ def job_plateaus(j, seed):
         return ob
 
     with C.oracle():
-        slope = [(y[i + 1] - y[i]) / (x[i + 1] - x[i]) for i in range(n - 1)]
+        per_s = Fraction(1000) if coord_kind == 'datetime' else Fraction(1)  # slope in Hz/s: datetime coordinates count milliseconds
+        slope = [(y[i + 1] - y[i]) * per_s / (x[i + 1] - x[i]) for i in range(n - 1)]
     nret = 0
     for k, p in enumerate(paths):
         P = f'path{k}'
@@ -183,7 +188,7 @@ def job_plateaus(j, seed):
                 okc = okc & (lo == x[r[0]])
                 for i in r:
                     okc = okc & (lo <= x[i]) & (x[i] < hi)
-                if coord_kind == 'int':
+                if coord_kind in ('int', 'datetime'):
                     okc = okc & (hi == x[r[-1]] + 1)
                 else:
                     # next representable value above the maximum: hi = max + ulp with ulp > 0 (nothing in between)
@@ -262,17 +267,18 @@ def run(chk):
     chk.functions = loader.describe_exprs(['flt.find_plateaus', 'flt._derive', 'flt._check_total_tolerance', 'flt.collapse_plateaus', 'flt._next_highest', 'flt._is_approximate_multiple', 'flt.filter_in_phase'], {**globals(), **locals()})
     ns = [2, 3] if chk.tier == 'quick' else [2, 3, 4, 5]
     jobs = [(n, m, ck) for n in ns for m in sorted({1, 2, n}) for ck in ('float', 'int')]
+    jobs += [(2, 1, 'datetime'), (3, 2, 'datetime')] + ([(3, 1, 'datetime'), (4, 2, 'datetime')] if chk.tier == 'thorough' else [])
     if chk.tier == 'quick':
         jobs += [(4, 2, 'float'), (4, 1, 'int')]
         ns = [2, 3, 4]
     run_jobs(chk, job_plateaus, jobs)
     run_jobs(chk, job_filter, [1, 4])
-    chk.bounds = {'points': ns, 'min_n_points': '1, 2, n', 'coordinates': 'float (next value = x + ulp, ulp > 0) and int (+1); strictly ascending',
+    chk.bounds = {'points': ns, 'min_n_points': '1, 2, n', 'coordinates': 'float (next value = x + ulp, ulp > 0), int (+1) and datetime64[ms] (integer milliseconds, tolerance per second, +1); strictly ascending',
                   'filter': 'one symbolic element (|f/ref| in [1/8, 8] or f = 0) among up to 3 concrete multiples of the reference, rtol = 1e-3'}
     chk.stubs = ['scipp -> symsc incl. group() on concrete group ids (slope comparisons fork), binned reductions, boolean indexing', 'numpy.nextafter -> x + positive ulp']
     chk.axioms = ['round half-to-even as integer-valued term']
     chk.assumptions = ['calls that raise the documented total-drift RuntimeError are outside the property ("whenever plateau finding returns")',
-                       'datetime coordinates behave like int coordinates (next = +1)']
+                       'datetime coordinates: unit ms in the symbolic jobs (other units in the replay only)']
 
 
 def replay_real(case):
@@ -282,6 +288,46 @@ def replay_real(case):
 
     rng = np.random.default_rng(6)
     bad = []
+    if case['kind'] == 'plateaus' and case.get('coord') == 'datetime':
+        # time stamps with a unit finer than seconds; the tolerance is per second.  The solver's counterexample first.
+        n0, min_n = case['n'], case['min_n']
+        model = case.get('model') or {}
+        from fractions import Fraction as F
+        trials = []
+        if all(f'x{i}' in model and f'y{i}' in model for i in range(n0)) and 'atol' in model:
+            trials.append(('ms', np.array([int(F(model[f'x{i}'])) for i in range(n0)], dtype='int64'), np.array([float(F(model[f'y{i}'])) for i in range(n0)]), float(F(model['atol']))))
+        for t_ in range(200):
+            n = int(rng.integers(max(2, n0), n0 + 6))
+            unit = ['ms', 'us', 'ns', 's'][t_ % 4]
+            per = {'s': 1, 'ms': 10**3, 'us': 10**6, 'ns': 10**9}[unit]
+            x = np.cumsum(rng.integers(max(1, per // 5), 3 * per, size=n)).astype('int64')
+            level, y = 0.0, []
+            for i in range(n):
+                if rng.random() < 0.3:
+                    level += rng.choice([-1, 1]) * rng.uniform(5, 10)
+                y.append(level + rng.uniform(-0.01, 0.01))
+            trials.append((unit, x, np.array(y), 0.5))
+        for unit, x, y, at in trials:
+            per = {'s': 1, 'ms': 10**3, 'us': 10**6, 'ns': 10**9}[unit]
+            epoch = np.datetime64('2024-03-01T12:00:00', unit)
+            da = sc.DataArray(sc.array(dims=['time'], values=y, unit='Hz'), coords={'time': sc.datetimes(dims=['time'], values=epoch + x.astype(f'timedelta64[{unit}]'), unit=unit)})
+            try:
+                pl = flt.find_plateaus(da, atol=sc.scalar(at, unit='Hz/s'), min_n_points=min_n)
+            except RuntimeError:
+                continue
+            sl = [abs(F(float(y[i + 1])) - F(float(y[i]))) * per / int(x[i + 1] - x[i]) > F(at) for i in range(len(x) - 1)]
+            runs = [[0]]
+            for i, b in enumerate(sl):
+                if b:
+                    runs.append([i + 1])
+                else:
+                    runs[-1].append(i + 1)
+            want = [r for r in runs if len(r) >= min_n]
+            got = [list(pl['plateau', i].value.values) for i in range(len(pl))]
+            if got != [[y[i] for i in r] for r in want]:
+                bad.append(f'datetime64[{unit}] offsets {x.tolist()} y={y.tolist()} atol={at} Hz/s: plateaus {got} vs {[[y[i] for i in r] for r in want]}')
+                break
+        return {'reproduced': bool(bad), 'detail': '; '.join(bad[:2])[:600]}
     if case['kind'] == 'plateaus':
         n0, min_n = case['n'], case['min_n']
         model = case.get('model') or {}
